@@ -387,6 +387,66 @@ fn explore_compiled(prop: &str, u: &U, hi: usize, w: usize, r: usize, st: &mut S
     }
 }
 
+/// evolution of one constructor of a compiled enum (unit variant -> struct variant with added
+/// fields, ...): every (w, r), every value, followed by a sentinel
+fn explore_variant_histories(prop: &str, u: &U, st: &mut Stats, thorough: bool, only: &Option<String>) {
+    for (hi, names) in &u.spec.variant_hist {
+        let h = &u.spec.histories[*hi];
+        let label = hist_label(h);
+        for w in 0..names.len() {
+            for r in 0..names.len() {
+                let ew = u.get(&names[w]);
+                let er = u.get(&names[r]);
+                let dw = h.decl_at(w);
+                let vals = values(&Ty::Record(Arc::new(dw)), &small_params(thorough));
+                for (vi, v) in vals.iter().enumerate() {
+                    let key = format!("variant:{hi}/w{w}/r{r}/v{vi}");
+                    if let Some(k) = only {
+                        if *k != key {
+                            continue;
+                        }
+                    }
+                    st.states += 1;
+                    let expected = h.expected(w, r, v);
+                    let wv = Val::Enum(0, v.items().to_vec());
+                    let enc = &(ew.enc)(&wv, &[Sink::ToByteVec])[0];
+                    st.transitions += 1;
+                    let Out::Ok(bytes) = &enc.out else {
+                        st.violate(format!("{prop} constructor-evolution writer-fails history={label} w={w}"), key, json!({"result": format!("{:?}", enc.out)}));
+                        continue;
+                    };
+                    let sentinel = [0xaau8, 0xbb];
+                    let mut input = bytes.clone();
+                    input.extend_from_slice(&sentinel);
+                    let d = (er.dec_ctx)(&input);
+                    st.transitions += 1;
+                    st.validated += 1;
+                    let ok = match &expected {
+                        Ok(ev) => {
+                            let want = Val::Enum(0, ev.items().to_vec());
+                            matches!(&d.out, Out::Ok(g) if canon(&er.ty, g) == canon(&er.ty, &want)) && d.rest.as_deref() == Some(&sentinel[..])
+                        }
+                        Err(e) => matches!(&d.out, Out::Err(g) if err_matches(e, g)),
+                    };
+                    if prop == "C08" {
+                        continue;
+                    }
+                    if !ok {
+                        st.violate(
+                            format!("{prop} constructor-evolution history={label} w={w} r={r} outcome={}", d.out.class()),
+                            key,
+                            json!({"writer_enum": names[w], "reader_enum": names[r], "value": val_json(&wv), "bytes": hex(bytes), "unread": d.rest.as_ref().map(|x| hex(x)), "expected": format!("{expected:?}").chars().take(200).collect::<String>(), "got": format!("{:?}", d.out).chars().take(200).collect::<String>()}),
+                        );
+                        continue;
+                    }
+                    st.bump("constructor-evolution");
+                    st.nontrivial += (w != r) as u64;
+                }
+            }
+        }
+    }
+}
+
 pub fn dyn_histories(thorough: bool) -> (Vec<History>, usize) {
     let depth = if thorough { 4 } else { 3 };
     let all = evo::enumerate("D", &spec::history_bases(), &spec::history_add_types(), depth, true);
@@ -423,6 +483,11 @@ fn explore(prop: &str, run: &mut Run, u: &U) {
         let st = par_items(&citems, Some(bridge::rt::hang_limit()), &|it: &Item| {
             println!("  hang in derived history {} w={} r={}", it.hi, it.w, it.r);
         }, &|it: &Item, st: &mut Stats| explore_compiled(prop, u, it.hi, it.w, it.r, st, thorough, &only));
+        run.stats.merge(st);
+    }
+    if !skip_compiled {
+        let mut st = Stats::default();
+        explore_variant_histories(prop, u, &mut st, thorough, &only);
         run.stats.merge(st);
     }
     let (dh, ddepth) = dyn_histories(thorough);
